@@ -16,6 +16,32 @@ TRUST = (
 
 # property id -> (level, technique, text, note, design section)
 CHECKS = {
+    "C11": (
+        "exploration",
+        "exhaustive configuration grid (algorithm x environment x hyper-parameters x key x observer subset) with a bitwise differential oracle across repeated, cross-process and observer-free runs",
+        "learn() of PPO/A2C/REINFORCE/DQN/SAC on tiny environments for every observer subset (quick: singletons and the full set; thorough: all subsets, bare and list forms) and every key of K: returned "
+        "parameters are compared bit for bit with the observer-free run, a second identical run, and a run in a freshly spawned process; the input policy must be unchanged; every pair of keys must give different parameters.",
+        TRUST + " Bounded to the key alphabet and one machine/backend.",
+        "5/C11",
+    ),
+    "C12": (
+        "model_checking",
+        "grid enumeration of (state, action, key) triples per environment in eager/jit/vmap modes with sub-batch, repetition and re-trace checks; vmapped vs independent collection differential plus per-stream reference validation of the real iteration",
+        "Every classic-control environment bare and under each wrapper, and the MJX environments (quick: 4, thorough: all 11 plus the 3 G1 tasks): all functional components on a grid of triples in three modes, every "
+        "contiguous sub-batch, bit-identical repetition, interleaving and re-tracing; vmapped collect_rollout vs N independent single-environment collections (PPO/A2C/DQN/SAC, scripted and MLP policies, N=2..4) and "
+        "the real iteration with N parallel environments validated stream by stream against the reference collector.",
+        TRUST,
+        "5/C12",
+    ),
+    "C19": (
+        "model_checking",
+        "explicit-state BFS of the real episode-statistics accumulator over all (reward, done) histories; end-to-end trace validation of logged records against a reference accumulator driven by reconstructed environment rewards; exhaustive MDP x script enumeration for the evaluation helper",
+        "The real LoggingCallbackStepState.next is explored over all event histories to depth 6 (8) for four smoothing factors; real collectors + LoggingCallback + recording backend on tabular MDPs x all scripts "
+        "x 1-3 parallel environments (environment rewards reconstructed from recorded observations/actions) and whole learn() runs on single-initial-state MDPs; average_reward on all 2-state MDPs x scripts x "
+        "episode counts x step caps with a key-agnostic reference (plus an independence clause over 64 keys).",
+        TRUST,
+        "5/C19",
+    ),
     "C09": (
         "model_checking",
         "exhaustive enumeration of all (num_envs, num_steps, batch_size, key) through the real batching API, and visit counts recovered through the real PPO.train (state = per-sample value table)",
